@@ -31,8 +31,8 @@ Notation db := (db C E P).
 Notation st := (st C E P).
 Notation dev := (dev C E).
 Notation msg := (msg C E).
-Notation prim := (prim C E P).
-Notation evolves := (evolves C E P).
+Notation prim := (prim C E P commit_of eval_of).
+Notation evolves := (evolves C E P commit_of eval_of).
 Notation world := (@world C E P).
 Notation op := (@op C E P).
 Notation step := (step C E P commit_of eval_of verify deg_ok valid_eval me L enum delta).
@@ -70,7 +70,7 @@ Proof.
   intros [= <-]. split; [exact Hh|].
   unfold shift_phases in Hs. apply shift_all_evolves in Hs. apply evolves_sa in Hs.
   apply handle_events_evolves in He. apply evolves_sa in He.
-  pose proof (evolves_sa _ _ (send_poly_evals_evolves C E P (fst x3) (snd x3))) as Hp.
+  pose proof (evolves_sa _ _ (send_poly_evals_evolves C E P commit_of eval_of (fst x3) (snd x3))) as Hp.
   unfold save. simpl.
   assert (Hfin : sa (save_all C E P (send_poly_evals C E P (fst x3)) (enum (sm_dkg (snd x3)))) =
                  (fst blk, db_applied C E P d ++ [blk])).
@@ -212,9 +212,8 @@ Qed.
 Lemma prim_ob x y : prim x y -> ob_ok (fst x) -> ob_ok (fst y) /\ ob_mono (fst x) (fst y).
 Proof.
   destruct 1; simpl; intros Hok;
+    try exact (ob_sched _ _ _ Hok); try exact (ob_filter _ _ Hok);
     try (split; [exact Hok|split; [apply N.le_refl|intros i Hi; left; exact Hi]]).
-  - apply ob_sched. exact Hok.
-  - apply ob_filter. exact Hok.
 Qed.
 
 Lemma evolves_ob x y : evolves x y -> ob_ok (fst x) -> ob_ok (fst y) /\ ob_mono (fst x) (fst y).
@@ -243,7 +242,7 @@ Proof.
   intros [= <-] Hok.
   unfold shift_phases in Hs. apply shift_all_evolves in Hs.
   apply handle_events_evolves in He.
-  pose proof (send_poly_evals_evolves C E P (fst x3) (snd x3)) as Hp.
+  pose proof (send_poly_evals_evolves C E P commit_of eval_of (fst x3) (snd x3)) as Hp.
   assert (Hall : evolves (upd_db_sync C E P d (fst blk) lch blk, s1) (send_poly_evals C E P (fst x3), snd x3)).
   { eapply ev_trans; [exact Hs|]. eapply ev_trans; [exact He|]. destruct x3; exact Hp. }
   apply evolves_ob in Hall; [|exact Hok]. simpl in Hall.
